@@ -13,7 +13,7 @@ import (
 
 func init() {
 	register(&Property{
-		ID: "C06",
+		ID:          "C06",
 		Explanation: "R1: the request handed to the wrapped handler on every attempt is a result of the copy routine applied to the ORIGINAL request parameter (never to a previous copy), with the buffered reader as body and its Size() as length; inside the retry loop it is a loop-header phi whose back-edge operands are copies made in that iteration. R2: the copy routine unconditionally gives the copy a CopyURL of the URL, a fresh header map filled by CopyHeaders, ContentLength = the size argument, an empty TransferEncoding, the buffered reader as Body when non-nil, and stores nothing into the original request. R3: on the way back to the next attempt, when the buffered body is non-nil, Seek(0,0) on it is passed before the handler is invoked again (delete the body==nil edge: the handler is unreachable from itself without passing the Seek). R4: the first attempt is only reachable on the success edge of multibuf.New(req.Body, ...), i.e. after the whole body was buffered.",
 		NotDecided: []string{
 			"byte-for-byte equality of what multibuf returns and the spill-threshold arithmetic (dependency behaviour, trusted)",
@@ -22,7 +22,7 @@ func init() {
 		Mutants: mutantsC06,
 	})
 	register(&Property{
-		ID: "C07",
+		ID:          "C07",
 		Explanation: "R1 (recorder isolation): the per-attempt recorder's Header/Write/WriteHeader never touch the client writer; a new recorder is allocated in every loop iteration; the status used for the retry decision and for relaying, and the body reader relayed, belong to THIS iteration's recorder (no loop-carried value). R2 (exactly one emission): an emission is an error-handler call that is handed the client writer, or the relay WriteHeader on it; on every path from entry to a return, except the return on the hijacked edge, exactly one emission occurs (event counting over all paths) and the relay is CopyHeaders -> WriteHeader -> io.Copy in that order. R3 (implicit 200): the recorded status is zero-tested and mapped to a valid status before ANY use of it in ServeHTTP (relay and retry context alike); sibling recorders export the status through the same mapping. R4 (empty body): WriterOnce.Reader() (which fails in its initial state) is called only on an edge proving bytes were written (a recorder field maintained by Write). R5 (bound): the attempt counter starts at i0, is incremented by exactly 1 on the only back edge, the back edge is only reachable on an edge implying counter <= K, and K - i0 + 2 <= 11; the context's attempt equals the number of invocations so far; with a nil predicate the handler is unreachable a second time. R6: the retry expression's operator table has the standard ordering sets (as C18.R1) for buffer and its sibling stream, and Attempts/ResponseCode/RequestMethod/IsNetworkError are bound to the attempt counter, the recorded status, the request method and status in {502,504}.",
 		NotDecided: []string{
 			"byte equality of the relayed body (delegated to io.Copy / multibuf); parsing of the expression text (vulcand/predicate)",
@@ -31,7 +31,7 @@ func init() {
 		Mutants: mutantsC07,
 	})
 	register(&Property{
-		ID: "C15",
+		ID:          "C15",
 		Explanation: "R1: every invocation of the wrapped handler is reachable only on the nil edge of the declared-length check and on the success edge of multibuf.New whose MaxBytes option is the configured request maximum itself; the check routine refuses ContentLength > max; their error edges answer through the size error handler and return. R2: the response writer is created with MaxBytes(maxResponseBodyBytes); the recorder's Write stores the underlying write's error; the relay to the client is only reachable on the writeError == nil edge. R3 (spill files): from the dependency's own SSA, the temp file of a WriterOnce is created under Write and removed only by the clean-up closure reachable from the reader's Close (WriterOnce.Close does not reach os.Remove); therefore a release routine that obtains the reader and closes it must be registered with defer after the writer's creation and before the wrapped handler is invoked, in every iteration, and every reader obtained in ServeHTTP must have its Close deferred on its success edge. R4: the request buffer is closed by a deferred call registered before any exit that follows its creation.",
 		NotDecided: []string{
 			"exact threshold arithmetic inside multibuf (trusted)",
@@ -379,15 +379,56 @@ func c06CopyRoutine(p *Prog, r *Report, b *bufInfo) {
 	// Body from the buffered reader when non-nil
 	okB := false
 	bodyParam := fn.Params[pBody]
+	stripTA := func(v ssa.Value) ssa.Value {
+		for {
+			v = stripConv(v)
+			ta, ok := v.(*ssa.TypeAssert)
+			if !ok {
+				return v
+			}
+			v = ta.X
+		}
+	}
 	for _, st := range stores["Body"] {
-		e := BuildExpr(p, st.Val, nil).String()
-		if strings.Contains(e, fmt.Sprintf("io.NopCloser(p%d)", pBody)) || stripConv(st.Val) == ssa.Value(bodyParam) {
-			for _, t := range NilTests(fn, func(v ssa.Value) bool { return stripConv(v) == ssa.Value(bodyParam) }) {
+		// the reader wrapped into the copy's Body: the argument of io.NopCloser, or the stored value itself
+		src := stripTA(st.Val)
+		if c, ok := src.(*ssa.Call); ok && ccIs(c.Common(), "io", "NopCloser") {
+			src = stripTA(c.Common().Args[0])
+		}
+		nts := NilTests(fn, func(v ssa.Value) bool { return stripConv(v) == ssa.Value(bodyParam) })
+		if src == ssa.Value(bodyParam) {
+			for _, t := range nts {
 				if OnlyViaEdge(fn, st, t.NonNil) {
 					okB = true
 				}
 			}
 			if uncond(fn, st) {
+				okB = true
+			}
+			continue
+		}
+		if _, isPhi := src.(*ssa.Phi); !isPhi {
+			continue
+		}
+		// chosen through a variable: on every path that takes the body != nil edge the variable holds the buffered reader
+		for _, t := range nts {
+			all, some := true, false
+			for _, path := range EnumPaths(fn, st, 4096) {
+				takes := false
+				for i := 0; i+1 < len(path); i++ {
+					if path[i] == t.NonNil.B && path[i+1] == t.NonNil.To() {
+						takes = true
+					}
+				}
+				if !takes {
+					continue
+				}
+				some = true
+				if stripTA(ResolveOnPath(src, path)) != ssa.Value(bodyParam) {
+					all = false
+				}
+			}
+			if all && some && uncond(fn, st) {
 				okB = true
 			}
 		}
@@ -434,7 +475,7 @@ func runC07(p *Prog, r *Report) {
 
 	// relay pieces
 	var relayWH, ioCopy *ssa.Call
-	var copyH ssa.Instruction
+	var copyH, copyAnchor ssa.Instruction
 	isClientHdr := func(v ssa.Value) bool {
 		hc, ok := stripConv(v).(*ssa.Call)
 		if !ok {
@@ -444,9 +485,17 @@ func runC07(p *Prog, r *Report) {
 		return ok && cc.Value == ssa.Value(b.w)
 	}
 	// an inlined copy loop is accepted when it has the helper's semantics (dst[k] = append(dst[k], vv...))
-	for _, hs := range headerStores(fn, isClientHdr, func(ssa.Value) bool { return true }) {
+	for _, hs := range headerStores(fn, isClientHdr, func(v ssa.Value) bool { return !isClientHdr(v) }) {
 		if hs.kind == "merge" {
 			copyH = hs.in
+			// the loop as a whole is anchored at its range instruction (an empty source copies nothing)
+			if ex, ok := hs.in.Key.(*ssa.Extract); ok {
+				if nx, ok := ex.Tuple.(*ssa.Next); ok {
+					if rg, ok := nx.Iter.(*ssa.Range); ok {
+						copyAnchor = rg
+					}
+				}
+			}
 		} else {
 			r.Fail("C07.R2", sn+": relayed headers are added to the client writer's", p.InstrPos(hs.in), "the relay stores header values into the client writer's header map without appending to what is there ("+hs.kind+"): headers set on the writer by an outer middleware are overwritten / value slices are shared with the recorder")
 		}
@@ -583,7 +632,10 @@ func runC07(p *Prog, r *Report) {
 		}
 	}
 	r.Check(!afterEm, "C07.R2", sn+": no attempt after the response was emitted", p.InstrPos(b.handler), "the handler is unreachable from every emission", "the wrapped handler can be invoked after a response was already sent to the client")
-	okOrder := !ReachableAvoiding(fn, nil, relayWH, isOnly(copyH), nil) && !ReachableAvoiding(fn, nil, ioCopy, isOnly(relayWH), nil)
+	if copyAnchor == nil {
+		copyAnchor = copyH
+	}
+	okOrder := !ReachableAvoiding(fn, nil, relayWH, isOnly(copyAnchor), nil) && !ReachableAvoiding(fn, nil, ioCopy, isOnly(relayWH), nil) && !Reach(fn, relayWH, nil, nil)[copyH]
 	r.Check(okOrder, "C07.R2", sn+": relay order headers -> status -> body", p.InstrPos(relayWH), "CopyHeaders precedes WriteHeader precedes io.Copy on every path", "the relay does not copy headers before WriteHeader and the body after it on every path")
 
 	// ---- R3 implicit 200 ----
@@ -847,7 +899,7 @@ func c07Bound(p *Prog, r *Report, b *bufInfo, inLoop map[*ssa.BasicBlock]bool) {
 	if ctxT != nil {
 		for _, st := range FieldStores(fn, ctxT, "attempt") {
 			rf := ToRat(BuildExpr(p, st.Val, nil)).norm()
-			want := rfAtom("phi#" + ctr.Name() + "@" + fn.Name()).Add(rfConst(newRat(1-init)), 1)
+			want := rfAtom("phi#"+ctr.Name()+"@"+fn.Name()).Add(rfConst(newRat(1-init)), 1)
 			r.Check(rf.Equal(want), "C07.R5", sn+": Attempts() is the number of invocations made so far", p.InstrPos(st), "context.attempt = counter"+fmt.Sprintf("%+d", 1-init), "the attempt number given to the retry expression is "+rf.String()+", not the number of invocations made so far")
 		}
 		for _, st := range FieldStores(fn, ctxT, "r") {
@@ -1381,6 +1433,7 @@ func mutantsC06() []Mutant {
 		{Name: "url-shared", File: f, Old: "\to.URL = utils.CopyURL(req.URL)\n", New: "\to.URL = req.URL\n", Expect: "C06.R2"},
 		{Name: "te-kept", File: f, Old: "\to.TransferEncoding = []string{}\n", New: "", Expect: "C06.R2"},
 		{Name: "wrong-size", File: f, Old: "\toutReq := b.copyRequest(req, body, totalSize)\n", New: "\toutReq := b.copyRequest(req, body, req.ContentLength)\n", Expect: "C06.R1"},
+		{Name: "copyheaders-shares-slices", File: "utils/netutils.go", Old: "\t\tdst[k] = append(dst[k], vv...)\n", New: "\t\tif _, ok := dst[k]; !ok {\n\t\t\tdst[k] = vv\n\t\t\tcontinue\n\t\t}\n\t\tdst[k] = append(dst[k], vv...)\n", Expect: "C06.R5"},
 	}
 }
 
@@ -1401,6 +1454,8 @@ func mutantsC07() []Mutant {
 		{Name: "attempts-bound-to-code", File: t, Old: "\t\treturn c.attempt\n", New: "\t\treturn c.responseCode\n", Expect: "C07.R6"},
 		{Name: "network-error-503", File: t, Old: "c.responseCode == http.StatusBadGateway || c.responseCode == http.StatusGatewayTimeout", New: "c.responseCode == http.StatusBadGateway || c.responseCode == http.StatusServiceUnavailable", Expect: "C07.R6"},
 		{Name: "stream-ge-as-gt", File: "stream/threshold.go", Old: "\t\t\tGE:  ge,\n", New: "\t\t\tGE:  gt,\n", Expect: "C07.R6"},
+		{Name: "headers-copied-before-retry-decision", File: "buffer/buffer.go", Old: "\t\t\tutils.CopyHeaders(w.Header(), bw.Header())\n\t\t\tw.WriteHeader(bw.code)\n", New: "\t\t\tw.WriteHeader(bw.code)\n", More: []Edit{{"buffer/buffer.go", "\t\tvar reader multibuf.MultiReader\n", "\t\tutils.CopyHeaders(w.Header(), bw.Header())\n\n\t\tvar reader multibuf.MultiReader\n"}}, Expect: "C07.R2"},
+		{Name: "hijacked-set-before-hijack", File: "buffer/buffer.go", Old: "\t\tconn, rw, err := hi.Hijack()\n\t\tif err == nil {\n\t\t\tb.hijacked = true\n\t\t}\n\t\treturn conn, rw, err\n", New: "\t\tb.hijacked = true\n\t\treturn hi.Hijack()\n", Expect: "C07.R7"},
 	}
 }
 
@@ -1417,6 +1472,8 @@ func mutantsC15() []Mutant {
 		{Name: "checklimit-ge-dropped", File: f, Old: "\tif req.ContentLength > b.maxRequestBodyBytes {", New: "\tif req.ContentLength > 2*b.maxRequestBodyBytes {", Expect: "C15.R1"},
 		{Name: "writeerror-not-recorded", File: f, Old: "\t\tb.writeError = err\n", New: "", Expect: "C15.R2"},
 		{Name: "size-handler-500", File: f, Old: "\t\tw.WriteHeader(http.StatusRequestEntityTooLarge)", New: "\t\tw.WriteHeader(http.StatusInternalServerError)", Expect: "C15.R1"},
+		{Name: "writer-closed-before-reader", File: "buffer/buffer.go", Old: "\tif rdr, err := b.buffer.Reader(); err == nil {\n\t\t_ = rdr.Close()\n\t}\n\treturn b.buffer.Close()\n", New: "\terr := b.buffer.Close()\n\tif rdr, errReader := b.buffer.Reader(); errReader == nil {\n\t\t_ = rdr.Close()\n\t}\n\treturn err\n", Expect: "C15.R3"},
+		{Name: "get-skips-buffering", File: "buffer/buffer.go", Old: "\tbody, err := multibuf.New(req.Body, multibuf.MaxBytes", New: "\tsrc := req.Body\n\tif req.ContentLength <= 0 && req.Method == http.MethodGet {\n\t\tsrc = http.NoBody\n\t}\n\tbody, err := multibuf.New(src, multibuf.MaxBytes", Expect: "C15.R5"},
 	}
 }
 
@@ -1469,7 +1526,17 @@ func headerStores(fn *ssa.Function, isDst, isSrc func(ssa.Value) bool) []hdrStor
 			}
 			hs := hdrStore{in: mu, kind: "other"}
 			v := stripConv(mu.Value)
+			isMerge := false
+			if c, ok := v.(*ssa.Call); ok {
+				if bi, ok := c.Common().Value.(*ssa.Builtin); ok && bi.Name() == "append" {
+					if lk, ok := stripConv(c.Common().Args[0]).(*ssa.Lookup); ok && isDst(stripConv(lk.X)) && lk.Index == mu.Key {
+						isMerge = true
+					}
+				}
+			}
 			switch {
+			case isMerge:
+				hs.kind = "merge"
 			case derivesFromRange(v, isSrc, 0):
 				hs.kind = "alias"
 			default:
